@@ -969,6 +969,11 @@ func genC05(c *Ctx) {
 		c.c05Malformed(s)
 		c.c05Probes(s)
 	}
+	for k, s := range sets {
+		if c.Thorough() || k == 0 || k == 1 || k == 4 {
+			c.c05DegreeContract(s)
+		}
+	}
 	c.c05ProbeQMul()
 }
 
